@@ -675,6 +675,17 @@ def _all_failures(case):
             fails.append(Fail(_consumed_sig(m) + '/second-call', f'after the second call, {m.path}: {m.detail}'))
         if not mutated and (c1.hash != c2.hash or rv.to_tree(c1) != rv.to_tree(c2)):
             fails.append(Fail('twice/cell-differs', f'{c1.hash.hex()} != {c2.hash.hex()} with unmodified inputs'))
+    # (E) what the parser returns is itself a stack of supported values: serialising it again gives the same cell. Not asserted
+    # when a continuation carries a control-data stack or save list: the parser returns those two as a list / a dict while
+    # the writer takes cells (a representation asymmetry, like a parsed slice being a Slice).
+    if not fails and not mutated and not any(_uses_cdata_containers(v) for v in specs):
+        ok, back = call(VmStack.deserialize, c1.begin_parse())
+        if ok:
+            ok, c4 = call(VmStack.serialize, back)
+            if not ok:
+                fails.append(Fail(f'reserialize-parsed/raises/{exc_sig(c4)}', f'VmStack.serialize(VmStack.deserialize(cell)) raised {c4!r}'))
+            elif c4.hash != c1.hash:
+                fails.append(Fail('reserialize-parsed/cell-differs', 'serialising the parsed stack gives another cell'))
     # (D) no stale state: after the caller changes a (nested) value, serialising reflects the NEW value
     if not mutated and not fails:
         mut = _find_mutation(specs)
@@ -705,6 +716,26 @@ def _all_failures(case):
                                           f'{m.path}: {m.detail}'))
                         break
     return _dedupe(fails)
+
+
+def _uses_cdata_containers(v):
+    t = v['t']
+    if t == 'tuple':
+        return any(_uses_cdata_containers(x) for x in v['items'])
+    if t != 'cont':
+        return False
+
+    def cont(c):
+        for name, typ in CONT_FIELDS[c['k']]:
+            if typ == 'cont':
+                if cont(c[name]):
+                    return True
+            elif typ not in ('int', 'slice'):
+                cd = c[name]
+                if cd.get('stack') is not None or cd.get('save'):
+                    return True
+        return False
+    return cont(v)
 
 
 def _find_mutation(specs):
